@@ -49,6 +49,8 @@ class SimFS:
         self.dirty = {}  # path -> content before the first unsynced modification (None = did not exist)
         self.marker = None  # free-form tag of the current operation, copied into the trace
         self.yield_hook = None
+        self.fds = {}
+        self.next_fd = 1000
 
     # -- helpers -------------------------------------------------------------
     def abspath(self, path):
@@ -148,6 +150,16 @@ class SimFS:
         self._touch_dirty(s)
         self._touch_dirty(d)
         self.files[d] = self.files.pop(s)
+
+    def fsync(self, fd):
+        """Flush the file and make its current content durable (a later power loss keeps it)."""
+        f = self.fds.get(fd)
+        if f is None:
+            raise OSError(errno.EBADF, "Bad file descriptor")
+        if self.io("fsync", f.path) is not None and self.crashed:
+            return
+        f._flush()  # pylint: disable=protected-access
+        self.dirty.pop(f.path, None)
 
     def chdir(self, path):
         p = self.abspath(path)
@@ -401,7 +413,10 @@ class SimFile:
             self._flush()
 
     def fileno(self):
-        raise SimfsUnsupported("fileno() (fsync) is not modelled")
+        fd = self.fs.next_fd
+        self.fs.next_fd += 1
+        self.fs.fds[fd] = self
+        return fd
 
     def close(self):
         if not self.closed:
@@ -577,15 +592,33 @@ def make_os_shim(fs, real_os):
         def getsize(p):
             return len(fs.files[fs.abspath(p)])
 
+        @staticmethod
+        def realpath(p, **_k):
+            return fs.abspath(p)
+
+        @staticmethod
+        def islink(_p):
+            return False
+
+        @staticmethod
+        def lexists(p):
+            return fs.exists(p)
+
     class _OsShim:
         path = _PathShim()
         sep = "/"
         linesep = "\n"
 
         def __getattr__(self, name):
-            if name in ("fsync", "fdatasync", "open", "fdopen", "write", "read", "stat", "utime", "chmod"):
+            if name in ("open", "fdopen", "write", "read", "stat", "utime", "chmod", "link", "symlink", "truncate"):
                 raise SimfsUnsupported(f"os.{name}")
             return getattr(real_os, name)
+
+        @staticmethod
+        def fsync(fd):
+            fs.fsync(fd)
+
+        fdatasync = fsync
 
         @staticmethod
         def scandir(path="."):
